@@ -83,7 +83,8 @@ func drawC02(t *rapid.T, x *X) *Case {
 		rs[i] = gspec.Pick(t, []rune{'\n', 'é', '日', '😀'}, "nlrune")
 		c.Input = []byte(string(rs))
 	}
-	c.Plan = drawPlan(t, x.G.Spec, 0, false, false)
+	// a few error-returning blocks: a code predicate's boolean alone decides the match
+	c.Plan = drawPlan(t, x.G.Spec, 2, false, false)
 	return c
 }
 
@@ -187,7 +188,7 @@ func checkC02(x *X, c *Case, strict bool) *Outcome {
 		} else if stale > 0 {
 			o.Tolerated = append(o.Tolerated, "KF-C02-STALECTX")
 		}
-		if d := compareOutcome(ref, resp, want, true); d != "" {
+		if d := compareOutcome(ref, resp, want, false); d != "" {
 			o.Viol = viol(pk, c, "match_value", d, describeRef(ref), describeResp(resp))
 			return o
 		}
